@@ -84,6 +84,7 @@ Step(e) ==
       [] e.ev = "SetState"   -> SetState(e.c) /\ UNCHANGED forms
       [] e.ev = "Query"      -> Query(e.kind) /\ UNCHANGED forms
       [] e.ev = "Reorder"    -> Reorder(e.p) /\ UNCHANGED forms
+      [] e.ev = "SetParam"   -> SetParam(e.j, Norm(e.k)) /\ UNCHANGED forms
       [] e.ev = "Names"      -> /\ stage \in {"built", "dyn"} /\ e.names = [i \in 1..NS |-> subs[i].name]
                                 /\ UNCHANGED <<vars, forms>>
       [] e.ev = "Integrated" -> /\ stage = "dyn" /\ last = "set" /\ Len(e.dev) = Len(KeySeq(subs))
